@@ -139,7 +139,7 @@ H_RUN = Harness(
     tiers={
         "quick": {"ranges": {"W": (1, 2), "N": (0, 4), "E": (0, 1), "D": (0, 2), "poison": (0, 1)},
                   "fixed": {"callsrc": 0, "dbl": 0, "efn": 0},
-                  "partition": ["W", "N", "E", "D"], "filter": (lambda f: f["D"] < 2 or f["N"] <= 3), "timeout": 200,
+                  "partition": ["W", "N", "E", "D"], "filter": (lambda f: f["D"] < 2 or f["N"] <= 2), "timeout": 200,
                   "twin_fixed": {"W": 2, "N": 3, "E": 1, "D": 1}},
         "thorough": {"ranges": {"N": (0, 5), "efn": (0, 3)},
                      "partition": ["W", "N", "E", "D", "poison"], "filter": (lambda f: f["poison"] <= f["N"]), "timeout": 1500,
